@@ -432,12 +432,29 @@ def class_constants(e, cls_qname: str):
     out = {}
     if c is None:
         return out
+    def folded(x):
+        # CONST + EARLIER_NAME (bytes / str built from earlier constants)
+        if isinstance(x, _ast.Constant):
+            return x.value
+        if isinstance(x, _ast.Name) and x.id in out:
+            return out[x.id]
+        if isinstance(x, _ast.BinOp) and isinstance(x.op, _ast.Add):
+            a, b = folded(x.left), folded(x.right)
+            if type(a) is type(b) and isinstance(a, (bytes, str)):
+                return a + b
+        return _MC_MISSING
     for st in c.node.body:
         if isinstance(st, _ast.Assign) and isinstance(st.value,
                                                        _ast.Constant):
             for t in st.targets:
                 if isinstance(t, _ast.Name):
                     out[t.id] = st.value.value
+        elif isinstance(st, _ast.Assign) and \
+                isinstance(st.value, _ast.BinOp) and \
+                folded(st.value) is not _MC_MISSING:
+            for t in st.targets:
+                if isinstance(t, _ast.Name):
+                    out[t.id] = folded(st.value)
         elif isinstance(st, _ast.Assign) and len(st.targets) == 1 and \
                 isinstance(st.targets[0], (_ast.Tuple, _ast.List)) and all(
                     isinstance(t, _ast.Name) for t in st.targets[0].elts):
